@@ -747,7 +747,7 @@ func Spec() *core.Spec {
 		Rule: "scenario {Dial with version negotiation, call 1, call 2, call 3, Close, call after Close, Close again} against a scripted in-memory server; for EVERY I/O operation index 0..25 of the first connection (the scenario uses ~20) and every kind " +
 			"{read EOF, read on closed, read ECONNRESET, write EPIPE, write ECONNRESET, short write, server closes right after replying to request k, server closes right after reading request k} the scenario is rerun with that fault (later connections are fault-free); " +
 			"plus a server that drops the connection after reading the request 1..8 times in a row (transmission budget), dialer failures during reconnect, 4/8/16 concurrent callers with a fault, and directed schedules through the verif hooks (connection torn down between loading the tx channel and using it; caller gone while the write loop reports an error; Close during a call). " +
-			"Monitors: panic/crash, own-id response or error, never two consecutive failed calls, <= 4 transmissions per request, calls fail after Close, goroutine census after Close. a response whose frame-completing Read is handed over only when the connection is closed (call abandoned by cancel, deadline or Close); distinct = distinct (scenario kind, fault kind, operation index)",
+			"Monitors: panic/crash, own-id response or error, never two consecutive failed calls, <= 4 transmissions per request, calls fail after Close, goroutine census after Close. a response whose frame-completing Read is handed over only when the connection is closed (call abandoned by cancel, deadline or Close); two fault kinds that leave the peer healthy (io.ErrShortWrite; error after complete delivery); distinct = distinct (scenario kind, fault kind, operation index)",
 		Assumptions: []string{"recovery rule used: while the server is reachable and new connections are fault-free, two consecutive calls never both fail (a call pending at, or first after, the fault may fail)",
 			"goroutines gone = none with a library frame within 10 s of closing the client and the server (bounded progress)"},
 		Required: []string{"calls", "late_responses_held", "double_faults_both_fired", "faults_fired.read-eof", "faults_fired.read-reset", "faults_fired.write-epipe", "faults_fired.short-write", "faults_fired.short-write-peer-stays", "faults_fired.write-error-after-delivery", "faults_fired.server-closes-after-reply", "faults_fired.server-closes-after-read",
